@@ -510,8 +510,8 @@ fn run_liveness_prefixes(report: &Report, tier: Tier) -> (Value, usize, usize, u
         let completions = sys.completions.load(std::sync::atomic::Ordering::Relaxed);
         let shapes: Vec<String> = sys.shapes.lock().unwrap().iter().cloned().collect();
         println!(
-            "  {name}: prefix states={} transitions={} depth_completed={} fair completions={} max rounds={} decided shapes={:?} capped={:?}",
-            st.states, st.transitions, st.depth_completed, completions, sys.max_rounds.load(std::sync::atomic::Ordering::Relaxed), shapes, st.capped
+            "  {name}: prefix states={} transitions={} depth_completed={} fair completions={} next windows={} max rounds={} decided shapes={:?} capped={:?}",
+            st.states, st.transitions, st.depth_completed, completions, sys.windows_run.load(std::sync::atomic::Ordering::Relaxed), sys.max_rounds.load(std::sync::atomic::Ordering::Relaxed), shapes, st.capped
         );
         tot_states += st.states;
         tot_trans += st.transitions;
@@ -523,6 +523,7 @@ fn run_liveness_prefixes(report: &Report, tier: Tier) -> (Value, usize, usize, u
         j["stakes"] = json!(stakes);
         j["real_nodes"] = json!(nodes);
         j["fair_completions"] = json!(completions);
+        j["correct_leader_windows_after_completion"] = json!(sys.windows_run.load(std::sync::atomic::Ordering::Relaxed));
         j["decided_shapes_slots_1_to_3"] = json!(shapes);
         per.push(j);
     }
